@@ -13,20 +13,24 @@ use vcommon::{
 use zlink_core::Connection;
 
 pub const RULE: &str = "cases = histories of 1..40 operations over {enqueue_call, send_call, \
-send_reply, send_error, flush} on one connection; message sizes are aimed with a model of the \
+send_reply, send_error, flush, flush started while the transport does not accept the write and abandoned after 1..3 polls} on one connection; message sizes are aimed with a model of the \
 write buffer (256-byte steps, never shrinks) at: a chosen free space 0..=600 left for the next \
 message, the exact-fit branch, spans of 1..5 growth steps, small and arbitrary sizes; refused \
 messages (bool/float/tuple/option map keys, a Serialize impl that fails, a key that fails after a \
 long valid prefix) are injected anywhere; a directed sweep meets every free-space value 0..=600 \
 with every paddable message kind. Oracle = model of the wire: each flush point with a non-empty \
 queue is exactly one transport write equal to the concatenation of serde_json::to_vec(msg)++NUL of \
-the accepted messages since the last flush. Non-trivial = at least 2 accepted messages in one write \
+the accepted messages since the last completed flush (an abandoned flush writes nothing and loses nothing). Non-trivial = at least 2 accepted messages in one write \
 together with buffer growth, an exact fit or a refusal in between; distinct by hash of the history.";
 
 #[derive(Debug, Clone, PartialEq, Eq, Hash, Serialize, Deserialize)]
 pub enum TxOp {
     Msg { msg: Msg, op: SendOp },
     Flush,
+    /// A flush that is started while the transport does not accept the write, polled `polls`
+    /// times and then abandoned (the future is dropped). The simulated transport takes a write
+    /// whole or not at all, so nothing has been written; what was enqueued must stay enqueued.
+    FlushAbandoned { polls: u8 },
 }
 
 #[derive(Debug, Clone, Serialize, Deserialize)]
@@ -47,7 +51,8 @@ enum SizeSpec {
 
 #[derive(Debug, Clone)]
 struct OpSpec {
-    flush: bool,
+    /// 0 = a message, 1 = flush, 2.. = a flush abandoned after that many polls minus one
+    flush: u8,
     kind: usize,
     opsel: u8,
     flags: u8,
@@ -64,7 +69,7 @@ fn op_spec_strategy() -> impl Strategy<Value = OpSpec> {
         1 => (0usize..1500).prop_map(SizeSpec::Any),
     ];
     (
-        prop::bool::weighted(0.15),
+        prop_oneof![80 => Just(0u8), 13 => Just(1u8), 7 => 2u8..5],
         0usize..MSG_KINDS.len(),
         any::<u8>(),
         any::<u8>(),
@@ -119,9 +124,13 @@ fn resolve(specs: &[OpSpec]) -> Vec<TxOp> {
     let mut model = BufModel::default();
     let mut ops = Vec::with_capacity(specs.len());
     for s in specs {
-        if s.flush {
+        if s.flush == 1 {
             ops.push(TxOp::Flush);
             model.flush();
+            continue;
+        }
+        if s.flush >= 2 {
+            ops.push(TxOp::FlushAbandoned { polls: s.flush - 1 });
             continue;
         }
         if let Some(r) = s.refused {
@@ -178,6 +187,7 @@ pub struct TxFacts {
     pub refused: usize,
     pub free_at_start: Vec<usize>,
     pub max_steps: usize,
+    pub abandoned_flush_with_queue: usize,
 }
 
 /// Expected transport writes for a history, and facts about it (from the aiming model).
@@ -203,6 +213,12 @@ pub fn expected_writes(case: &TxCase) -> (Vec<Vec<u8>>, Vec<bool>, TxFacts) {
                 in_write = 0;
                 special = false;
                 model.flush();
+            }
+            TxOp::FlushAbandoned { .. } => {
+                accept.push(true);
+                if in_write >= 1 {
+                    facts.abandoned_flush_with_queue += 1;
+                }
             }
             TxOp::Msg { msg, op } => match msg.expected() {
                 None => {
@@ -258,6 +274,24 @@ pub fn run_case(case: &TxCase) -> (Vec<Vec<u8>>, Vec<Result<(), String>>) {
     for op in &case.ops {
         let r = match op {
             TxOp::Flush => run_until_ready(wc.flush(), 16),
+            TxOp::FlushAbandoned { polls } => {
+                handle.write.borrow_mut().pending_script.push_front(1_000_000);
+                let r = {
+                    let fut = wc.flush();
+                    let mut fut = std::pin::pin!(fut);
+                    let mut r = None;
+                    for _ in 0..(*polls).max(1) {
+                        if let std::task::Poll::Ready(x) = vcommon::exec::poll_once(fut.as_mut()) {
+                            r = Some(x);
+                            break;
+                        }
+                    }
+                    // the future is dropped here, completed or not
+                    r.or(Some(Ok(())))
+                };
+                handle.write.borrow_mut().pending_script.pop_front();
+                r
+            }
             TxOp::Msg { msg, op } => run_until_ready(msg.submit(&mut wc, *op), 16),
         };
         results.push(match r {
@@ -293,6 +327,9 @@ pub fn check_case(case: &TxCase, stats: &mut Stats) -> CaseResult {
     }
     if facts.max_steps >= 3 {
         stats.class("message-spans>=3-steps");
+    }
+    if facts.abandoned_flush_with_queue > 0 {
+        stats.class("flush-abandoned-with-messages-enqueued");
     }
     for f in &facts.free_at_start {
         if *f <= 600 {
@@ -358,6 +395,7 @@ fn sample_of(case: &TxCase) -> serde_json::Value {
         .iter()
         .map(|o| match o {
             TxOp::Flush => "flush".to_string(),
+            TxOp::FlushAbandoned { polls } => format!("flush(abandoned after {polls} polls)"),
             TxOp::Msg { msg, op } => match msg {
                 Msg::Ok { kind, pad, .. } => format!("{op:?}({kind:?}, len={})", msg.encoded_len().unwrap_or(0) + 0 * pad),
                 Msg::Refused { kind, pad } => format!("{op:?}(REFUSED {kind:?}, pad={pad})"),
@@ -377,10 +415,10 @@ fn sweep_cases() -> Vec<TxCase> {
             for second in 0..3 {
                 let mut specs = vec![
                     // grow the buffer to 1280 bytes, then flush
-                    OpSpec { flush: false, kind: 0, opsel: 1, flags: 0, size: SizeSpec::Any(1100), refused: None },
-                    OpSpec { flush: true, kind: 0, opsel: 0, flags: 0, size: SizeSpec::Small(0), refused: None },
+                    OpSpec { flush: 0, kind: 0, opsel: 1, flags: 0, size: SizeSpec::Any(1100), refused: None },
+                    OpSpec { flush: 1, kind: 0, opsel: 0, flags: 0, size: SizeSpec::Small(0), refused: None },
                     OpSpec {
-                        flush: false,
+                        flush: 0,
                         kind: MSG_KINDS.iter().position(|k| k == kind).unwrap(),
                         opsel: 1,
                         flags: (f + ki) as u8 & 0x1b,
@@ -394,7 +432,7 @@ fn sweep_cases() -> Vec<TxCase> {
                     _ => SizeSpec::Span(2, (f % 5) as i32 - 2),
                 };
                 specs.push(OpSpec {
-                    flush: false,
+                    flush: 0,
                     kind: MSG_KINDS.iter().position(|k| *k == paddable[(ki + 1) % paddable.len()]).unwrap(),
                     opsel: 1,
                     flags: 0,
@@ -402,9 +440,9 @@ fn sweep_cases() -> Vec<TxCase> {
                     refused: None,
                 });
                 if f % 3 == 0 {
-                    specs.insert(3, OpSpec { flush: false, kind: 0, opsel: (f % 4) as u8, flags: 0, size: SizeSpec::Small(f % 300), refused: Some(f % REFUSED_KINDS.len()) });
+                    specs.insert(3, OpSpec { flush: 0, kind: 0, opsel: (f % 4) as u8, flags: 0, size: SizeSpec::Small(f % 300), refused: Some(f % REFUSED_KINDS.len()) });
                 }
-                specs.push(OpSpec { flush: true, kind: 0, opsel: 0, flags: 0, size: SizeSpec::Small(0), refused: None });
+                specs.push(OpSpec { flush: 1, kind: 0, opsel: 0, flags: 0, size: SizeSpec::Small(0), refused: None });
                 // all enqueued: make the calls enqueue (opsel=1 -> Enqueue for call kinds)
                 v.push(TxCase { ops: resolve(&specs), wpend: vec![] });
             }
